@@ -2,7 +2,7 @@
 from e2 import E2
 FILES = ['src/reader/file_reader.c', 'src/reader/mmap_reader.c', 'src/reader/page_reader.c', 'src/reader/column_reader.c', 'src/reader/batch_reader.c',
          'src/thrift/thrift_decode.c', 'src/thrift/parquet_types.c', 'src/core/arena.c', 'src/core/error.c']
-BUDGET = {'quick': 1500, 'thorough': 3600}
+BUDGET = {'quick': 840, 'thorough': 3600}
 H = 'harness/e2/c04_file.c'
 STUBS = ['zlib / libzstd: contract stubs (arbitrary status, arbitrary output within the declared capacity)', 'summary: carquet_crc32 = uninterpreted function of the page bytes',
          'stdio and open/fstat/mmap over the in-memory model file system', 'cpuid: no SIMD features (scalar dispatch)', 'snprintf/vsnprintf: writes an empty NUL-terminated string',
@@ -24,15 +24,16 @@ def obligations(tier):
     q = tier == 'quick'
     o = []
     if q:
-        # footer of skeleton 0: every byte position (24 obligations x 8 positions = 192 >= footer length); data region: every
-        # position of the first 96 bytes (page headers + bodies of the first chunk); other modes / skeleton 1: strided samples
+        # the quick tier must finish well inside 15 minutes: every byte position of skeleton 0's footer (24 obligations x 8
+        # positions), the first 48 bytes of the data region (page header + body of the first pages), strided samples for the
+        # stdio/mmap paths and skeleton 1; everything else is in the thorough tier
         for w0 in range(0, 192, 8):
-            o.append(win(0, 0, w0, 8, 1, 1, 0, 1100))
-        for w0 in range(0, 96, 8):
-            o.append(win(0, 1, w0, 8, 1, 1, 0, 1100))
-        o.append(win(0, 0, 0, 8, 23, 1, 1, 1100)); o.append(win(0, 0, 0, 8, 23, 1, 2, 1100))
-        o.append(win(0, 1, 0, 8, 11, 1, 1, 700)); o.append(win(0, 1, 0, 8, 11, 1, 2, 700))
-        o.append(win(1, 0, 0, 12, 19, 1, 0, 700)); o.append(win(1, 1, 0, 12, 9, 1, 0, 700))
+            o.append(win(0, 0, w0, 8, 1, 1, 0, 620))
+        for w0 in range(0, 48, 8):
+            o.append(win(0, 1, w0, 8, 1, 1, 0, 620))
+        o.append(win(0, 0, 0, 6, 31, 1, 1, 620)); o.append(win(0, 0, 0, 6, 31, 1, 2, 620))
+        o.append(win(0, 1, 0, 6, 13, 1, 2, 620))
+        o.append(win(1, 0, 0, 8, 29, 1, 0, 620)); o.append(win(1, 1, 0, 8, 11, 1, 0, 620))
     else:
         for skel in (0, 1):
             for w0 in range(0, 320, 16):
